@@ -735,7 +735,7 @@ def check_c18(pid, cfg, tier, seed, work, t0):
     # log), and a cut is compared with the history completed up to the request it falls in
     nclear = (10, 40)[ti]
     cprof = dict(prof)
-    cprof["weights"] = dict(prof["weights"], Clear=22)
+    cprof["weights"] = dict(prof["weights"], Clear=22, Recreate=8)   # Recreate: the constructor with overwrite=True
     cprof["clearkeep"] = 0.4
     clear_cuts = 0
     for h in range(nclear):
@@ -747,7 +747,7 @@ def check_c18(pid, cfg, tier, seed, work, t0):
         n0 = len(rows)
         rows += crash.enumerate_cuts(hist, len(hists) - 1, next_id, files_every=(9, 5)[ti], ref_base=hist["ref_base"])
         clear_cuts += sum(1 for r in rows[n0:] if hist["ops"] and 0 < r["step"] <= len(hist["ops"])
-                          and hist["ops"][r["step"] - 1]["op"] in ("Clear", "ClearKeep"))
+                          and hist["ops"][r["step"] - 1]["op"] in ("Clear", "ClearKeep", "Recreate"))
         if impl.TIMEOUTS[0] >= 3:
             break
     # validate in chunks; histories are shared through batch.extra.hists
@@ -833,7 +833,7 @@ def check_c18(pid, cfg, tier, seed, work, t0):
                    COMMON_ASSUMPTIONS + ["in-place block rewrites are atomic; the two files are cut at the same "
                                          "program point; rules in force when the request started are re-supplied on reopen"],
                    level="fault_enumeration" if False else "model_checking")
-    print("%s %s: model crash L%s %d states (every cut of every request); %d histories, %d cuts reopened by the real code "
+    print("%s %s: model crash L%s %d states (every cut of every request, clear() included); %d histories, %d cuts reopened by the real code "
           "(%d opened, %d refused), rows validated by TLC in %.1fs; violations=%d known=%d drift=%d (%.1fs)"
           % (pid, tier, mcs[0]["level"], sum(m["distinct"] for m in mcs), len(hists), len(rows), opened, refused, wall,
              len(real), len(kn_hits), len(drift), time.time() - t0))
@@ -893,8 +893,10 @@ def replay_c18(body, work):
 
 
 reg("C18", custom=check_c18, mc=[("crash", 4, 5)], title="Torn write history", level="model_checking",
-    technique="TLA+ write-list model: TLC checks every cut of every request of all small histories (MC_crash); fault "
-              "enumeration replays every cut of real write logs into the real code, rows judged by TLC (CrashRows)")
+    technique="TLA+ write-list model: TLC checks every cut of every request of all small histories (MC_crash; "
+              "MC_crash_clear with the file re-creations of clear() as events; mutant MC_crash_clearbug must fail); fault "
+              "enumeration replays every cut of real write logs, file re-creations included, into the real code, rows "
+              "judged by TLC (CrashRows)")
 
 # ---------------------------------------------------------------------------------------
 # Replay
